@@ -60,6 +60,13 @@ def twin_runs(chk, stats):
         spec = {"kinds": kinds, "nparams": rng.randint(1, 4), "E": rng.randint(1, 3), "seed": rng.below(2**31),
                 "loss": rng.choice(["minkowski", "msm", "fourier", "gsl", "likelihood"]), "rl": is_rl}
         n = rng.randint(2, 4)
+        if li % 5 == 1:
+            spec["model"] = "mut_model"        # a model that writes into its theta argument
+        if li == 2:
+            # more history than any size threshold inside a sampler (the GP sampler treats > 500 points specially)
+            spec["kinds"] = [("halton", 505), ("gp", 2), ("uniform", 2)]
+            spec["nparams"], spec["E"], spec["loss"], spec["rl"], n = 2, 1, "minkowski", False, 3
+            is_rl = False
         base = rl.run_segments(spec, [n], [])
         variants = [("same", dict()), ("ctor-seeds", dict(ctor_seed_shift=17)), ("verbose", dict(verbose=True)),
                     ("njobs2", dict(n_jobs=2))]
